@@ -10,9 +10,9 @@
 import re
 
 from .. import core, runner
-from . import c01, c02, c05, c12, c14, c15, c20, regcommon, worldcommon, c08
+from . import c01, c02, c05, c12, c14, c15, c20, regcommon, worldcommon, c08, spectwin
 
-THEOREMS = ["ZI.Order.C12_twin", "ZI.Order.c_eq_py", "ZI.Adapt.C14_twin", "ZI.Adapt.callC_eq_callPy"]
+THEOREMS = ["ZI.Order.C12_twin", "ZI.Order.c_eq_py", "ZI.Adapt.C14_twin", "ZI.Adapt.callC_eq_callPy"] + spectwin.THEOREMS
 KNOWN = "eq-foreign-nonstr-name"
 
 
@@ -39,8 +39,8 @@ def streams(rnd, tier):
 
 def check(tier):
     chk = core.Check("C10", tier, level="proof")
-    chk.obligations(THEOREMS, ["f_c = f_py for the remaining twin pairs (SB_extends, providedBy / implementedBy fast paths, descriptors, LookupBase / VerifyingBase): "
-                               "their C logic is compared with the Python reference by differential execution only"])
+    chk.obligations(THEOREMS, ["f_c = f_py for the remaining twin pairs (the specification descriptors ClassProvidesBase.__get__ / ObjectSpecificationDescriptor.__get__, "
+                               "LookupBase / VerifyingBase): their C logic is compared with the Python reference by differential execution only"])
     rnd = core.rng("C10")
     fails, known, known2 = [], [], []
     total = 0
@@ -75,13 +75,18 @@ def check(tier):
             fails.append(dict(layer=layer, script=lines[s:e], message="%s stream, %s: C accelerator answers %r, Python reference answers %r" % (
                 layer, lines[i], c_out[i][:300], py_out[i][:300]), observed=c_out[i], other=py_out[i]))
             break
+    # the declaration-query twins on real objects of every shape: each implementation against its own twin model, and against each other
+    for f in spectwin.run(chk, tier, rnd, want=("c10",))[:3]:
+        fails.append(f)
+        chk.violation(f["message"], dict(kind="input", mode=f["mode"], layer="spectwin", script=f["script"], observed=f["observed"], expected=f["expected"],
+                                         expected_by="the twin model (ZI.SpecTwin)" if f["kind"] == "model" else "the other implementation", minimised=True))
     if known:
         chk.violation("known", dict(), sig=KNOWN)
         chk.counters["known_finding_occurrences"] = len(known)
     if known2:
         chk.violation("known", dict(), sig="garbage-provides-exception-type")
         chk.counters["known_finding2_occurrences"] = len(known2)
-    for f in fails[:3]:
+    for f in [f for f in fails if "layer" in f][:3]:
         chk.violation(f["message"], dict(kind="history", mode="c-vs-py", layer=f["layer"], script=f["script"], observed=f["observed"],
                                          expected=f["other"], expected_by="the other implementation", minimised=False))
     core.lean_failure_violation(chk) if not fails else None
@@ -97,6 +102,12 @@ def replay(path):
     rep = runner.load_replay(path)
     script = rep["script"]
     layer = rep.get("layer", "odd")
+    if layer == "spectwin":
+        if spectwin.replay_script(script, "C10"):
+            print("VIOLATION property=C10 replay=%s" % path)
+            return 1
+        print("replay passes on the current tree")
+        return 0
     a = core.run_impl(layer, script, "c")
     b = core.run_impl(layer, script, "py")
     bad = 0
